@@ -235,7 +235,14 @@ class ResourceMap:
         # discriminated between handles and maps.
         for subkey in keys[:-1]:
             target_map.handles.pop(subkey, None)    # Overwrite duplicates
-            target_map = target_map.maps.setdefault(subkey, ResourceMap())
+            next_map = target_map.maps.get(subkey)
+            if next_map is None:
+                # Missing intermediate map: create it and link it to
+                # its container just like an explicitly added one
+                next_map = target_map.maps[subkey] = ResourceMap()
+                next_map.parent = target_map
+                next_map.key = subkey
+            target_map = next_map
 
         # For better performance, only one type check is done at this
         # point.
